@@ -43,6 +43,11 @@ func vSameSnap(label string, s vSnap, buf []byte, ff FeatureSlice) {
 	for i := 0; i < s.n && i < len(ff); i++ {
 		vAssert(label+"-feature-unchanged", vAnd(ff[i].Key == s.keys[i], vAnd(vSameAtoms(vAtoms(ff[i].Loc), s.atoms[i]), vPropsString(ff[i].Props) == s.props[i])))
 	}
+	// the spare slots of the caller's table (the part of its backing array beyond len) stay untouched
+	full := ff[:cap(ff)]
+	for i := len(ff); i < len(full); i++ {
+		vAssert(label+"-spare-slots-untouched", vAnd(full[i].Key == "", vAnd(full[i].Loc == nil, len(full[i].Props) == 0)))
+	}
 }
 
 // vAliasBytes builds residues of length n inside a caller-owned buffer:
@@ -159,6 +164,9 @@ func vC11(op int, hostShape, guestShape, tableSpare int) {
 		out = WithFeatures(host, hff.Filter(Overlap(i, L)))
 	case 14:
 		out = Slice(host, 0, L) // the whole sequence: every Expand is by zero
+	case 15:
+		// sorted insertion of a feature that sorts after everything in the table (features mostly arrive in order)
+		out = WithFeatures(host, hff.Insert(Feature{"zz", Range(L-1, L), vFeatTag(7)}))
 	default:
 		out = WithFeatures(host, hff.Insert(gff[0]))
 	}
@@ -169,7 +177,14 @@ func vC11(op int, hostShape, guestShape, tableSpare int) {
 	// the same arguments can be fed to a further operation with the same result as on fresh arguments
 	obuf := append([]byte{}, out.Bytes()...)
 	os := vSnapshot(obuf, out.Features())
-	switch vChoice("second", 3) {
+	second := vChoice("second", 3)
+	if op == 15 {
+		second = 3
+	}
+	switch second {
+	case 3:
+		// a second insertion into the same table must not disturb the first result
+		_ = hff.Insert(Feature{"zy", Point(L - 1), vFeatTag(8)})
 	case 0:
 		_ = Insert(host, i, guest)
 	case 1:
@@ -185,10 +200,10 @@ func vC11(op int, hostShape, guestShape, tableSpare int) {
 	vObserve("outlen", len(out.Bytes()))
 }
 
-//verif:harness prop=C11 quick=15 thorough=15 timeout=1200
-//verif:bounds each of 15 operations (insert embed delete erase slice concat reverse rotate complement transcribe with-* repair filter sorted-insert full-slice); with spare table capacity the source feature is a join with partial parts on a 4-residue host / 2-residue guest with symbolic bytes; aliasing shapes by choice: residues len==cap | spare capacity | sub-slice of a larger buffer (host and guest independently), feature tables with 0 or 2 spare slots; quick: concrete coordinates, index 1, length 2; thorough: all 18 aliasing combinations, second feature = symbolic range | join | complement of symbolic range, index in {0,2,4}, length in {0,1,2}; each followed by a second operation on the same arguments
+//verif:harness prop=C11 quick=16 thorough=16 timeout=1200
+//verif:bounds each of 16 operations (insert embed delete erase slice concat reverse rotate complement transcribe with-* repair filter sorted-insert full-slice sorted-insert-at-the-end twice); the spare slots of the caller's feature table are part of what must not change;; with spare table capacity the source feature is a join with partial parts on a 4-residue host / 2-residue guest with symbolic bytes; aliasing shapes by choice: residues len==cap | spare capacity | sub-slice of a larger buffer (host and guest independently), feature tables with 0 or 2 spare slots; quick: concrete coordinates, index 1, length 2; thorough: all 18 aliasing combinations, second feature = symbolic range | join | complement of symbolic range, index in {0,2,4}, length in {0,1,2}; each followed by a second operation on the same arguments
 func VH_C11_purity() {
-	op := vShard(15)
+	op := vShard(16)
 	hostShape := vChoice("hshape", 3)
 	guestShape := 0
 	spare := 0
